@@ -242,12 +242,13 @@ def validate_trace(module, cfg, trace_path, tag, timeout=900, workers=1, extra_e
 
 
 def record_and_validate(engine, module, cfg, tier, tag, seed, runs, steps, chunks=1, extra=None,
-                        extra_env=None):
+                        extra_env=None, drift_cfg=None):
     """Record `chunks` independent trace files from the real code and validate
     each with TLC. Returns (summary, first_rejection or None)."""
     total_events, total_states = 0, 0
     counters = {}
     samples = []
+    drift_notes = []
     wall = 0.0
     for c in range(chunks):
         path = os.path.join(WORK, f"trace_{tag}_{c}.ndjson")
@@ -266,6 +267,11 @@ def record_and_validate(engine, module, cfg, tier, tag, seed, runs, steps, chunk
                         samples.append(json.loads(ln))
         v = validate_trace(module, cfg, path, f"{tag}_{c}", extra_env=extra_env)
         wall += v["wall_s"]
+        if v["accepted"] and drift_cfg:
+            dv = validate_trace(module, drift_cfg, path, f"{tag}_{c}_exact", extra_env=extra_env)
+            wall += dv["wall_s"]
+            if not dv["accepted"]:
+                drift_notes.append({"line": dv["rejected_at"], "event": dv.get("rejected_event")})
         total_states += v["distinct"]
         if not v["accepted"]:
             keep = os.path.join(REPLAYS, f"{tag}_seed{seed}_chunk{c}.ndjson")
@@ -276,7 +282,7 @@ def record_and_validate(engine, module, cfg, tier, tag, seed, runs, steps, chunk
                      "violated": v["violated"], "errors": v["errors"], "module": module})
         os.remove(path)
     return ({"events": total_events, "runs": runs * chunks, "states": total_states, "counters": counters,
-             "samples": samples, "wall_s": wall}, None)
+             "samples": samples, "wall_s": wall, "drift": drift_notes}, None)
 
 
 # --------------------------------------------------------------------------
@@ -305,6 +311,7 @@ class Verdict:
         self.coverage = {"states": 0, "transitions": 0, "traces_validated_against_impl": 0, "samples": [],
                          "exhaustive": False, "parts": []}
         self.assumptions = []
+        self.drifts = []
         self.violations = []   # (key, what, replay_payload)
         self.known = []
 
@@ -339,6 +346,10 @@ class Verdict:
         if summ.get("samples") and len(self.coverage["samples"]) < 8:
             self.coverage["samples"].append({"from": name, "first_events": summ["samples"][:5]})
 
+    def drift(self, part, what):
+        self.drifts.append({"part": part, "what": what})
+        print(f"MODEL-DRIFT: property={self.prop} {what}", flush=True)
+
     def violation(self, key, what, payload):
         f = finding_for(self.prop, key)
         if f:
@@ -354,6 +365,8 @@ class Verdict:
         ev = {"property_id": self.prop, "tier": self.tier, "seed": self.seed, "level": self.level,
               "coverage": cov, "assumptions": self.assumptions, "wall_s": wall,
               "violations": len(self.violations)}
+        if self.drifts:
+            ev["model_drift"] = self.drifts
         if self.known:
             ev["known_findings_reproduced"] = [k for k, _ in self.known]
         with open(os.path.join(EVIDENCE, f"{self.prop}.json"), "w") as f:
@@ -399,15 +412,24 @@ def model_check_part(v, name, module, cfg, tier, key_prefix, workers=None, timeo
 
 
 def replay_part(v, name, module, cfg, engine, tier, key_prefix, stride=1, timeout=1200, last_only=False,
-                vh_args=None, min_cases=1):
+                vh_args=None, min_cases=1, count_model=False):
     res = export_replay(module, cfg, engine, tier, f"{v.prop}_{slug(name)}", seed=v.seed, stride=stride,
                         timeout=timeout, last_only=last_only, vh_args=vh_args)
     v.add_replay(name, res)
+    if count_model:
+        # the export run also evaluated the cfg's invariants on every state it generated
+        v.coverage["states"] += res["tlc"]["distinct"]
+        v.coverage["transitions"] += res["tlc"]["generated"]
+        v.coverage["parts"][-1]["invariants_checked_by_tlc_in_same_run"] = True
     if res["tlc"]["errors"]:
         v.violation(f"{key_prefix}/model/{res['tlc']['violated'] or 'error'}",
                     f"TLC: {res['tlc']['errors'][0]} in {module}/{cfg}", {"errors": res["tlc"]["errors"]})
     if res["cases"] < min_cases:
         vacuous(f"{name}: only {res['cases']} behaviours exported")
+    if res.get("drift_count"):
+        first = res["drifts"][0] if res.get("drifts") else {}
+        v.drift(name, f"{res['drift_count']} behaviour(s) keep the property but differ from the code-shaped model "
+                      f"{module}; first: {json.dumps(first)[:500]}")
     if res["mismatch_count"] or res["panic_count"]:
         first = res["mismatches"][0] if res["mismatches"] else {}
         kind = "panic" if "panic" in first else "mismatch"
@@ -419,10 +441,13 @@ def replay_part(v, name, module, cfg, engine, tier, key_prefix, stride=1, timeou
 
 
 def trace_part(v, name, engine, module, cfg, tier, key_prefix, runs, steps, chunks=1, extra=None,
-               extra_env=None):
+               extra_env=None, drift_cfg=None):
     summ, rej = record_and_validate(engine, module, cfg, tier, f"{v.prop}_{slug(name)}", v.seed, runs, steps,
-                                    chunks=chunks, extra=extra, extra_env=extra_env)
+                                    chunks=chunks, extra=extra, extra_env=extra_env, drift_cfg=drift_cfg)
     v.add_traces(name, summ)
+    if summ.get("drift"):
+        v.drift(name, f"recorded behaviour satisfies the property but differs from the code-shaped model "
+                      f"{module} at line {summ['drift'][0]['line']}: {(summ['drift'][0].get('event') or '')[:300]}")
     if rej:
         what = (f"recorded behaviour of the real code rejected by {module} at line {rej['line']}: "
                 f"{(rej.get('event') or '')[:400]}")
